@@ -1390,6 +1390,56 @@ func genT2fixed(c *Ctx) {
 		c.Stat("t2.value-comparison-probe", name+" (Go-specific, model only)")
 		c.Case(Verdict, "t2.dec", newT2env().args(cat(mv, body, []byte{5, 14})), true)
 	}
+	// operand families for every arithmetic / logic / conditional operator: cancelling pairs (x, -x), equal pairs, zeros,
+	// +-1, +-32767, 16.16 fractions that cancel or are equal; the result becomes the dx of an rlineto
+	{
+		fx := func(v int64) []byte { return t2num(v, 0) }
+		xs := []int64{65536, -65536, 3 * 65536, 32767 * 65536, -32767 * 65536, 32768, -32768, 1, -1, 5*65536 + 16384, -(7*65536 + 49152), 100 * 65536}
+		var pairs [][2]int64
+		for _, x := range xs {
+			pairs = append(pairs, [2]int64{x, -x}, [2]int64{x, x}, [2]int64{0, x}, [2]int64{x, 0})
+		}
+		pairs = append(pairs, [2]int64{0, 0}, [2]int64{65536, -1}, [2]int64{65536, 65535}, [2]int64{3 * 65536, 2 * 65536}, [2]int64{2 * 65536, 3 * 65536},
+			[2]int64{-65536, 1}, [2]int64{32767 * 65536, -32767*65536 + 1})
+		type bop struct {
+			name  string
+			code  []byte
+			exact bool // Go = specification for all operands (D t2.spec as well)
+		}
+		for _, o := range []bop{{"and", esc(3), true}, {"or", esc(4), true}, {"eq", esc(15), true}, {"add", esc(10), false},
+			{"sub", esc(11), false}, {"mul", esc(24), false}, {"div", esc(12), false}} {
+			for _, pq := range pairs {
+				c.Stat("t2.operand-family", o.name)
+				code := cat(mv, fx(pq[0]), fx(pq[1]), o.code, num(7), []byte{5, 14})
+				c.Case(Verdict, "t2.dec", newT2env().args(code), true)
+				if o.exact {
+					c.Case(Direct, "t2.spec", newT2env().args(code), true)
+				}
+			}
+		}
+		// ifelse: s1 s2 v1 v2 -> s1 if v1 <= v2 else s2
+		for _, pq := range pairs {
+			c.Stat("t2.operand-family", "ifelse")
+			code := cat(mv, num(11), num(22), fx(pq[0]), fx(pq[1]), esc(22), num(7), []byte{5, 14})
+			c.Case(Verdict, "t2.dec", newT2env().args(code), true)
+			c.Case(Direct, "t2.spec", newT2env().args(code), true)
+		}
+		for _, o := range []bop{{"not", esc(5), true}, {"neg", esc(14), true}, {"abs", esc(9), true}, {"sqrt", esc(26), false}} {
+			vals := append([]int64{0, 4 * 65536, 2 * 65536, 16384}, xs...)
+			if o.name == "sqrt" { // exact square roots only (the model takes the integer root of the 16.16 value) and negative operands
+				vals = []int64{0, 65536, 4 * 65536, 9 * 65536, 100 * 65536, 16384, 65536 / 16, -65536, -1, -32768, -4 * 65536}
+			}
+			for _, x := range vals {
+				c.Stat("t2.operand-family", o.name)
+				code := cat(mv, fx(x), o.code, num(7), []byte{5, 14})
+				c.Case(Verdict, "t2.dec", newT2env().args(code), true)
+				// beyond +-32000 the decoder clamps the coordinate (known finding C05-clamp): model only
+				if o.exact && x <= 32000*65536 && x >= -32000*65536 {
+					c.Case(Direct, "t2.spec", newT2env().args(code), true)
+				}
+			}
+		}
+	}
 	// the stack limit (48) reached by an OPERATOR, not an operand: 47 / 48 elements, then a stack-growing operator
 	// (dup, random) or, as control, an operator that does not grow the stack (index, get, put, roll, exch), plain
 	// and inside a subroutine; TN5177 Appendix B: at most 48 entries -> the 49th is rejected
@@ -2498,7 +2548,8 @@ func t2dictReal(units int64) []byte {
 type t2cffFD struct {
 	dw, nw int64
 	real   bool
-	subrs  *t2cffTable
+	shape  byte // 0: defaultWidthX and nominalWidthX present, 'N': neither, 'D': only defaultWidthX, 'W': only nominalWidthX
+	subrs  *t2cffTable // (an absent entry has the value 0 in the case line: TN5176 defaults)
 }
 
 func t2cffPrivate(fd t2cffFD) []byte {
@@ -2509,10 +2560,18 @@ func t2cffPrivate(fd t2cffFD) []byte {
 		return t2dictInt(int(u / 65536))
 	}
 	var d []byte
-	d = append(d, num(fd.dw)...)
-	d = append(d, 20)
-	d = append(d, num(fd.nw)...)
-	d = append(d, 21)
+	if fd.shape == 0 || fd.shape == 'D' {
+		d = append(d, num(fd.dw)...)
+		d = append(d, 20)
+	}
+	if fd.shape == 0 || fd.shape == 'W' {
+		d = append(d, num(fd.nw)...)
+		d = append(d, 21)
+	}
+	if fd.shape == 'N' && fd.subrs.n == 0 {
+		d = append(d, t2dictInt(1)...) // BlueFuzz 1 (the default): the DICT is not empty
+		d = append(d, 12, 11)
+	}
 	if fd.subrs.n > 0 {
 		// the local Subr INDEX follows the Private DICT directly: offset = size of this DICT
 		size := len(d) + 5 + 1
@@ -2633,7 +2692,10 @@ func t2parseCffCase(f Fields) (bool, *t2cffTable, []t2cffFD, []int, [][]byte) {
 		var fd t2cffFD
 		fmt.Sscan(p[0], &fd.dw)
 		fmt.Sscan(p[1], &fd.nw)
-		fd.real = p[2] == "r"
+		fd.real = strings.HasPrefix(p[2], "r")
+		if len(p[2]) > 1 {
+			fd.shape = p[2][1]
+		}
 		fd.subrs = t2parseCffTable(p[3])
 		fds = append(fds, fd)
 	}
@@ -2757,6 +2819,18 @@ func genT2cff(c *Ctx) {
 				fd.dw += int64(r.Range(1, 3)) * 16384
 				fd.nw += int64(r.Range(1, 3)) * 16384
 			}
+			// Private DICT shapes: entries may be absent (defaults 0, TN5176 table 23); the first fonts of a run sweep the shapes
+			fd.shape = Pick(r, []byte{0, 0, 0, 'N', 'D', 'W'})
+			if i < 8 {
+				fd.shape = []byte{0, 'N', 'D', 'W'}[(i+j)%4]
+			}
+			if fd.shape == 'N' || fd.shape == 'W' {
+				fd.dw = 0
+			}
+			if fd.shape == 'N' || fd.shape == 'D' {
+				fd.nw = 0
+			}
+			c.Stat("t2cff.private-dict-shape", map[byte]string{0: "defaultWidthX + nominalWidthX", 'N': "neither", 'D': "only defaultWidthX", 'W': "only nominalWidthX"}[fd.shape])
 			n := Pick(r, []int{0, 1, 2, 5, 1239, 1240, 1241})
 			if r.Chance(1, 12) {
 				n = Pick(r, []int{33899, 33900})
@@ -2777,7 +2851,7 @@ func genT2cff(c *Ctx) {
 			}
 			fd := fds[f]
 			var code []byte
-			if r.Bool() { // explicit width: w - nominalWidthX is the first operand
+			if (i < 8 && g%2 == 0) || (!(i < 8 && g%2 == 1) && r.Bool()) { // explicit width: w - nominalWidthX is the first operand
 				code = append(code, num(r.Range(-50, 400))...)
 				c.Stat("t2cff.glyph-width", "explicit (nominal + operand)")
 			} else {
@@ -2801,6 +2875,9 @@ func genT2cff(c *Ctx) {
 			e := "i"
 			if fd.real {
 				e = "r"
+			}
+			if fd.shape != 0 {
+				e += string(fd.shape)
 			}
 			fdStrs[j] = fmt.Sprintf("%d~%d~%s~%s", fd.dw, fd.nw, e, fd.subrs.String())
 		}
